@@ -126,9 +126,14 @@ func verifC19CheckTrie(e *verifC19TrieEnv, it *InstanceNameTrie, member []bool, 
 // verifC19TrieOp applies one symbolic operation (Set of any of the six names
 // with a fresh value, or Remove of a current member), checks Remove's result,
 // and re-checks every lookup.
-func verifC19TrieOp(e *verifC19TrieEnv, it *InstanceNameTrie, member []bool, value []int, count *int, phase uint64) {
+func verifC19TrieOp(e *verifC19TrieEnv, it *InstanceNameTrie, member []bool, value []int, count *int, phase uint64, removeOnly bool) {
 	k := len(e.names)
-	op := vnd.Choose(2 * k)
+	var op int
+	if removeOnly {
+		op = k + vnd.Choose(k)
+	} else {
+		op = vnd.Choose(2 * k)
+	}
 	i := op % k
 	if op < k {
 		if !member[i] {
@@ -209,8 +214,97 @@ func Verif_C19_T1_Trie() {
 	}
 	vnd.Cover("t1-built")
 	verifC19CheckTrie(e, it, member, value, 0)
-	verifC19TrieOp(e, it, member, value, &count, 1)
+	verifC19TrieOp(e, it, member, value, &count, 1, false)
 	if vnd.Thorough() {
-		verifC19TrieOp(e, it, member, value, &count, 2)
+		verifC19TrieOp(e, it, member, value, &count, 2, true)
 	}
+}
+
+// verifC19SymQueryMasksQuick: registered subsets used with the symbolic query in
+// the quick tier (bit i = verifC19TrieNames[i]); thorough uses all 64.
+var verifC19SymQueryMasksQuick = []int{0b111111, 0b101110, 0b001101, 0b100100, 0b010010, 0b000000}
+
+// Verif_C19_T1_TrieSymbolicQuery: the query name is a SYMBOLIC string of 0..5
+// bytes over {a,b,c,/} constrained only to be a well-formed instance name (no
+// leading/trailing/double slash): all four lookups agree with the longest
+// component-wise prefix, computed fork-free on the symbolic bytes.
+//
+// symgo: maxpaths=60000
+func Verif_C19_T1_TrieSymbolicQuery() {
+	k := len(verifC19TrieNames)
+	var mask int
+	if vnd.Thorough() {
+		mask = vnd.Choose(1 << uint(k))
+	} else {
+		mask = verifC19SymQueryMasksQuick[vnd.Choose(len(verifC19SymQueryMasksQuick))]
+	}
+	it := NewInstanceNameTrie()
+	member := make([]bool, k)
+	for i, n := range verifC19TrieNames {
+		if mask&(1<<uint(i)) != 0 {
+			member[i] = true
+			it.Set(verifC19Name(n), i)
+		}
+	}
+	n := vnd.Choose(6)
+	q := vnd.SymString(n)
+	for i := 0; i < n; i++ {
+		c := q[i]
+		vnd.Assume(vnd.Or(vnd.Or(c == 'a', c == 'b'), vnd.Or(c == 'c', c == '/')))
+		if i == 0 || i == n-1 {
+			vnd.Assume(c != '/')
+		} else {
+			vnd.Assume(vnd.Not(vnd.And(c == '/', q[i-1] == '/')))
+		}
+	}
+	vnd.Cover("t1s-assumed")
+	qn := InstanceName{value: q}
+
+	// oracle on the bytes: name p (concrete) is a component-wise prefix of q iff
+	// p == "" or q starts with p and ends there or continues with '/'.
+	wantLongest, wantExact := -1, -1
+	for i, p := range verifC19TrieNames {
+		if !member[i] || len(p) > n {
+			continue
+		}
+		starts := true
+		for j := 0; j < len(p); j++ {
+			starts = vnd.And(starts, q[j] == p[j])
+		}
+		isPrefix := starts
+		if len(p) < n && len(p) > 0 {
+			isPrefix = vnd.And(starts, q[len(p)] == '/')
+		}
+		if len(p) == n {
+			wantExact = vnd.IteInt(starts, i, wantExact)
+		}
+		// a match replaces the current candidate only if it is longer
+		wantLongest = vnd.IteInt(vnd.And(isPrefix, verifC19LongerThan(p, wantLongest)), i, wantLongest)
+	}
+	gl := it.GetLongestPrefix(qn)
+	ge := it.GetExact(qn)
+	cp := it.ContainsPrefix(qn)
+	ce := it.ContainsExact(qn)
+	vnd.Assert(gl == wantLongest, "GetLongestPrefix (symbolic query) is not the longest component-wise prefix")
+	vnd.Assert(ge == wantExact, "GetExact (symbolic query) is not the identical registered name")
+	vnd.Assert(cp == (wantLongest >= 0), "ContainsPrefix (symbolic query) disagrees with the oracle")
+	vnd.Assert(ce == (wantExact >= 0), "ContainsExact (symbolic query) disagrees with the oracle")
+	if gl >= 0 && ge < 0 {
+		vnd.Cover("t1s-proper-prefix")
+	}
+	if gl < 0 {
+		vnd.Cover("t1s-no-match")
+	}
+	vnd.Observe("trie-sym", uint64(n), uint64(int64(gl)), uint64(int64(ge)))
+}
+
+// verifC19LongerThan: len(p) > len(names[cur]) for a symbolic index cur (-1: none), fork-free.
+func verifC19LongerThan(p string, cur int) bool {
+	r := cur == -1
+	for i, n := range verifC19TrieNames {
+		if len(p) > len(n) {
+			r = vnd.Or(r, cur == i)
+		}
+	}
+	return r
 }
